@@ -36,6 +36,7 @@ def reader_canaries(cases, rng, count=10):
     rng.shuffle(pool)
     for n, c in enumerate(pool[:count]):
         k = copy.deepcopy(c)
+        k['canary_of'] = k['id']
         k['id'] = 'canary-%d' % n
         kind = n % 4
         if kind == 0:
